@@ -617,7 +617,7 @@ func c19RefusedNoEffect(c *Ctx) {
 				}
 			}
 		case *ssa.Call:
-			if cal := x.Call.StaticCallee(); cal != nil && cal.Name() == "isSwitchReadFuncError" && len(x.Call.Args) == 1 && derivesErr(x.Call.Args[0]) {
+			if cal := x.Call.StaticCallee(); isFn(cal, "", "isSwitchReadFuncError") && len(x.Call.Args) == 1 && derivesErr(x.Call.Args[0]) {
 				return b == a.Succs[0]
 			}
 		}
